@@ -99,6 +99,13 @@ Example C09_float_two_sided_fixed :
   arb_float (the_lib d) d [0; 0; 0; 0; 0; 0; 0; 0] = OOk (VF 4391576639459776022).
 Proof. vm_compute. reflexivity. Qed.
 
+(* the repaired overshoot: greater_or_equal = -1.1, less_or_equal = 0.1 on f64, all-ones bytes:
+   -1.1 + 1.0 * fl(0.1 - -1.1) = 0.10000000000000009 is clamped to the upper bound *)
+Example C09_float_inclusive_upper_clamped :
+  let d := ex_decl (FFloat true) [] [VGreaterOrEqual (BLit 13831004815617530266); VLessOrEqual (BLit 4591870180066957722)] in
+  arb_float (the_lib d) d [255; 255; 255; 255; 255; 255; 255; 255] = OOk (VF 4591870180066957722).
+Proof. vm_compute. reflexivity. Qed.
+
 (* --- strings: the generator is total and yields only valid values ----------------------- *)
 From NV Require Import Lemmas.ArbStrLemmas Macro.Validate.
 From NV.Unicode Require UStr.
